@@ -85,7 +85,11 @@ CLAIMS = {
              "symbolic_mode/rule_mode/__enter__/__exit__/An.evaluate. For ALL histories: c08_confined (mode = innermost enclosing "
              "block, stack = pushed queries), c08_outside_blocks, c08_inside_block, c08_iter_ops_invisible (create/advance/close/"
              "finalise anywhere changes nothing observable), c08_leave_restores (any balanced body, incl. exceptions). "
-             "Correspondence: random histories run with REAL with-statements, real iterators and gc, observed after every step.",
+             "Regenerated ties: c08_operators_guarded (every dunder operator of CanBehaveLikeAVariable begins with the mode guard), "
+             "c08_advance_guard_tied. Correspondence: random histories run with REAL with-statements, real iterators (also of queries "
+             "that run user predicates, or whose evaluation raises) and gc; after every step: in_symbolic_mode(), the rule flag, what "
+             "constructing a @symbol class and calling a @predicate function with a concrete argument give, whether EVERY operator of "
+             "a variable is rejected, the stack length.",
         note=BASE_NOTE + "Single thread; the time at which CPython finalises a dropped iterator is covered by quantifying over the "
              "position of the close step.",
         tech="Lean 4 proof (invariant by induction over operation histories) + step-by-step differential correspondence"),
@@ -107,8 +111,11 @@ CLAIMS = {
              "yield_class_values_from_cache. For every hierarchy (arbitrary `sub`) and every history of concrete / symbolic "
              "constructions, inference and clears: c14_registry (query = logged constructions of T and subclasses since the last "
              "clear), c14_each_once, c14_symbolic_inert, c14_inits. Correspondence: identity sets vs the harness's own log over "
-             "random hierarchies, construction styles, inference and clearing.",
-        note=BASE_NOTE + "Reading: declare-and-evaluate atomically (observe_at). Construction styles are identified in the model "
+             "random hierarchies (single and multiple inheritance, decorated and undecorated subclasses, sized classes whose instances "
+             "are falsy), construction styles, inference, clearing, abandoned / failing queries.",
+        note=BASE_NOTE + "Reading: declare-and-evaluate atomically (observe_at); in addition a query DECLARED on the empty registry "
+             "and evaluated later must see every instance constructed by then (the library takes such a domain at evaluation time); "
+             "a query declared while part of its subtree already has instances is not claimed. Construction styles are identified in the model "
              "(they reach the same patched __new__); that is checked by correspondence.",
         tech="Lean 4 proof (invariant by induction over operation histories) + identity-level differential correspondence"),
     'C16': dict(
@@ -132,8 +139,10 @@ CLAIMS = {
         text="c17_concat_value / c17_concat_rows: concatenate(t) evaluates to exactly one output, the list of all inner elements in "
              "domain order then inner order with multiplicity; c17_member / c17_not_member: in_/not_(in_) of another variable against "
              "it select exactly the (non-)members, in domain order. Correspondence: the single value as a sequence, membership, "
-             "non-membership, contains spelling.",
-        note=BASE_NOTE + "Non-empty parent domain in the generated cases. The implementation also rebinds the operand's variable to "
+             "non-membership, contains spelling, combined with conditions on the outer variable, selected next to it; inner collections "
+             "that are lists / tuples / scalars / empty, elements that are containers themselves, a parent domain without any parent, "
+             "a parent restricted by a sub-query.",
+        note=BASE_NOTE + "The implementation also rebinds the operand's variable to "
              "a list inside the output; using that variable afterwards is outside the property.",
         tech="Lean 4 proof (unfolding the evaluator on the concatenate node) + differential correspondence"),
     'C10': dict(
